@@ -58,9 +58,9 @@ CHECKS = {
         note="partial: tree-sitter, Go runtime (stack, memory), wall clock and OS are not modelled; the malformed stream is a test, not a proof. F29 (panic on elif without body) repaired; F21 (exponential longest-chain search) recorded as open known finding.",
         design="5 C06"),
     "C07": dict(
-        technique="Coq proof about the textbook forest-recurrence spec (delta) and a literal Gallina model of apted.go/apted_tree.go (Zhang-Shasha) and of the three cost models; constants regenerated from Go source; a memoised evaluator proved equal to the spec; brute-force minimum over Tai mappings on a bounded domain; differential correspondence (vm_compute) against the tagged Go driver on real TreeNode values",
-        text="Theorems (Props/C07.v, no axioms): for the spec, distance non-negative, 0 to itself, symmetric for symmetric costs, never more than delete-all plus insert-all, similarity in [0,1] and 1 for identical trees (any size); the three shipped cost models satisfy the hypotheses for every label; the model's similarity is in [0,1] for all inputs and its nil cases equal the spec; bounded: model = spec = brute-force minimum over all Tai mappings on all pairs of trees with <=4 nodes/2 labels and <=3 nodes/3 labels for the three cost models. Every run: exhaustive small pairs and random/mutated trees up to 40 (120 thorough) nodes, cost tables, self-zero/symmetry/upper-bound/similarity clauses on the implementation, cases at 499/500 nodes and above.",
-        note="ComputeDistance = spec for all trees <= 500 nodes is NOT proved in general (bounded theorem + correspondence). Costs are exact integers (units of 2^-120): default model compared exactly, python/weighted within 1e-9. Minimum edit cost = minimum over edit mappings (python/weighted costs are not a metric). Trees > 500 nodes (computeDistanceOptimized) are not modelled; only similarity range/identity are checked there. Observation recorded in DESIGN: above 500 nodes the distance is usually 0.",
+        technique="Coq proof about the textbook forest-recurrence spec (delta) and a literal Gallina model of apted.go/apted_tree.go (Zhang-Shasha) and of the three cost models; constants regenerated from Go source; unbounded proofs that the Zhang-Shasha model equals the spec (post-order numbering, key roots, forest-table invariant) and that the spec equals the minimum over all Tai edit mappings; a memoised evaluator proved equal to the spec; differential correspondence (vm_compute) against the tagged Go driver on real TreeNode values",
+        text="Theorems (Props/C07.v, no axioms): for the spec, distance non-negative, 0 to itself, symmetric for symmetric costs, never more than delete-all plus insert-all, similarity in [0,1] and 1 for identical trees (any size); the three shipped cost models satisfy the hypotheses for every label; the model's similarity is in [0,1]; UNBOUNDED: C07_zs_exact (forall cost model and trees, zs = ted), C07_ComputeDistance_exact (every pair of trees with <= 500 nodes: ComputeDistance = Some (ted)), C07_nil_cases, C07_delta_is_min / C07_zs_is_min (the distance is the minimum cost over all Tai mappings, every cost model), with C07_prepare_nodes_postorder, C07_keyroots_spec, C07_forest_table_invariant; the bounded vm_compute theorems (<=4 nodes) are kept as regression instances. Every run: exhaustive small pairs and random/mutated trees up to 40 (120 thorough) nodes, cost tables, self-zero/symmetry/upper-bound/similarity clauses on the implementation, cases at 499/500 nodes and above.",
+        note="Costs are exact integers (units of 2^-120): default model compared exactly, python/weighted within 1e-9. Minimum edit cost = minimum over edit mappings (python/weighted costs are not a metric). Trees > 500 nodes (computeDistanceOptimized) are not modelled; only similarity range/identity are checked there. Observation recorded in DESIGN: above 500 nodes the distance is usually 0.",
         design="5 C07"),
     "C08": dict(
         technique="Coq proof over a literal model of the clone pair pipeline around an abstract similarity function (Clone/Pairs.v: extraction filters, overlap, shouldCompare + Jaccard pre-filters, classifier gate, bands, significance, exhaustive/batched/LSH paths, sort+limit, service filter, Validate); operators/literals regenerated from the Go AST; CLI correspondence on generated projects x configurations x file orders with the model instantiated by the observed similarity table",
